@@ -39,9 +39,18 @@ func SignJSON(signingName string, keyID KeyID, privateKey ed25519.PrivateKey, me
 	}{
 		Signatures: map[string]map[KeyID]spec.Base64Bytes{},
 	}
-	if err = json.Unmarshal(message, &preserve); err != nil {
+	// Pick the two members out by their exact names. Decoding straight into the struct matches
+	// field names case-insensitively, so that e.g. a member "Unsigned" would overwrite "unsigned".
+	var object map[string]json.RawMessage
+	if err = json.Unmarshal(message, &object); err != nil {
 		return nil, err
 	}
+	if raw, ok := object["signatures"]; ok {
+		if err = json.Unmarshal(raw, &preserve.Signatures); err != nil {
+			return nil, err
+		}
+	}
+	preserve.Unsigned = spec.RawJSON(object["unsigned"])
 	if message, err = sjson.DeleteBytes(message, "signatures"); err != nil {
 		return nil, err
 	}
@@ -84,14 +93,20 @@ func SignJSON(signingName string, keyID KeyID, privateKey ed25519.PrivateKey, me
 
 // ListKeyIDs lists the key IDs a given entity has signed a message with.
 func ListKeyIDs(signingName string, message []byte) ([]KeyID, error) {
-	var object struct {
-		Signatures map[string]map[KeyID]json.RawMessage `json:"signatures"`
-	}
+	// Only the member named exactly "signatures" counts (struct decoding would also accept
+	// "Signatures" etc.), as in VerifyJSON.
+	var object map[string]json.RawMessage
 	if err := json.Unmarshal(message, &object); err != nil {
 		return nil, err
 	}
+	var signatures map[string]map[KeyID]json.RawMessage
+	if raw, ok := object["signatures"]; ok {
+		if err := json.Unmarshal(raw, &signatures); err != nil {
+			return nil, err
+		}
+	}
 	var result []KeyID
-	for keyID := range object.Signatures[signingName] {
+	for keyID := range signatures[signingName] {
 		result = append(result, keyID)
 	}
 	return result, nil
